@@ -1,21 +1,46 @@
 #!/usr/bin/env python3
-"""Prints the markdown table of /verif/seeded/*/meta.json for DESIGN.md section 10."""
-import json, glob, os
-rows=[]
-for d in sorted(glob.glob('/verif/seeded/*/')):
-    try: m=json.load(open(d+'meta.json'))
+"""Prints the markdown table of /verif/seeded/*/meta.json (full: seeded/TABLE.md; --compact: DESIGN.md section 10)."""
+import json, glob, os, sys, re
+compact = '--compact' in sys.argv
+def key(d):
+    name = os.path.basename(d.rstrip('/'))
+    m = re.match(r'c(\d+)-(\d+)', name)
+    return (int(m.group(1)), int(m.group(2))) if m else (99, 0)
+rows = []
+stats = {'total': 0, 'valid': 0, 'detected': 0, 'own': 0}
+for d in sorted(glob.glob('/verif/seeded/*/'), key=key):
+    try: m = json.load(open(d + 'meta.json'))
     except Exception: continue
-    name=os.path.basename(d.rstrip('/'))
-    ok=all(m['confirmed'][k] for k in ('builds','repository_suite_passes_with_patch','demo_passes_without_patch','demo_fails_with_patch'))
-    det=', '.join(m['detected_by']) or '**not detected**'
-    classes=[]
+    name = os.path.basename(d.rstrip('/'))
+    ok = all(m['confirmed'][k] for k in ('builds', 'repository_suite_passes_with_patch', 'demo_passes_without_patch', 'demo_fails_with_patch'))
+    det = ', '.join(m['detected_by']) or '**not detected**'
+    if m.get('superseded_by_fix'):
+        det = f"(superseded by fix {m['superseded_by_fix']}, see note)"
+    stats['total'] += 1
+    stats['valid'] += ok
+    stats['detected'] += bool(m['detected_by'])
+    stats['own'] += m['property'] in m['detected_by']
+    classes = []
     for c in m['checks_run']:
-        if c.get('violation_lines',0)>0:
-            cl=c.get('classes','').replace('--- output','').split()
-            classes.append(f"{c['check']}: "+', '.join(cl[:3])+(' ...' if len(cl)>3 else ''))
-    summ=(m.get('summary') or '').replace('|','\\|').replace('\n',' ')
-    if len(summ)>230: summ=summ[:227]+'...'
-    rows.append(f"| {name} | {m['property']} | {summ} | {'yes' if ok else 'NO'} | {det} | {'; '.join(classes)} |")
-print("| seeded change | property | what it changes | confirmed (builds, suite passes, demo fails with / passes without) | detected by | classes reported |")
-print("|---|---|---|---|---|---|")
+        if c.get('violation_lines', 0) > 0:
+            cl = [x for x in c.get('classes', '').split() if x.startswith('c') or x == 'race' or x == 'panic']
+            n = 2 if compact else 3
+            classes.append(f"{c['check']}: " + ', '.join(cl[:n]) + (' ...' if len(cl) > n else ''))
+    summ = (m.get('summary') or '').replace('|', '\\|').replace('\n', ' ')
+    lim = 140 if compact else 400
+    if len(summ) > lim: summ = summ[:lim - 3] + '...'
+    if compact:
+        rows.append(f"| {name} | {summ} | {det} | {'; '.join(classes)} |")
+    else:
+        need = (m.get('needs_to_manifest') or '').replace('|', '\\|').replace('\n', ' ')
+        if len(need) > 300: need = need[:297] + '...'
+        rows.append(f"| {name} | {m['property']} | {summ} | {need} | {'yes' if ok else 'see note'} | {det} | {'; '.join(classes)} | {m.get('note','')} |")
+if compact:
+    print("| change | what it changes | detected by | classes reported (first two) |")
+    print("|---|---|---|---|")
+else:
+    print("| seeded change | property | what it changes | needs to manifest | confirmed (builds, suite passes, demo fails with / passes without) | detected by | classes reported | note |")
+    print("|---|---|---|---|---|---|---|---|")
 print('\n'.join(rows))
+print()
+print(f"{stats['total']} changes; {stats['valid']} confirmed on the current tree; {stats['detected']} detected by at least one check; {stats['own']} detected by the check of the property they were written against.")
